@@ -275,7 +275,6 @@ class AbstractAst:
                 'The variable {0} is not declared. Setting its topic name to {1} is ignored.'.format(var_name,
                                                                                                      var_topic))
         else:
-            topic = self.var_topic_dict[var_name]
             self.var_topic_dict[var_name] = var_topic
 
     def set_var_io_type(self, var_name, var_iotype):
